@@ -113,6 +113,45 @@ fn run(seq: &[(&'static str, Request)]) -> Option<String> {
     }
 }
 
+// back-pressure phase: commands sent back to back while nobody reads the answers, over a small channel
+// (4 KiB buffers growing to 16 KiB) with 10 KB ids, so the worker's answers pile up against the channel ceiling
+fn burst(commands: usize) -> Option<String> {
+    let config = ConfigBuilder::new(FileConfig::default(), "").into_config().ok()?;
+    let server_config = ServerConfig::from(&config);
+    let (mut main_side, worker_side): (Channel<WorkerRequest, WorkerResponse>, Channel<WorkerResponse, WorkerRequest>) = Channel::generate(4_096, 16_384).ok()?;
+    let (scm_a, scm_b) = UnixStream::pair().ok()?;
+    let scm_main = ScmSocket::new(scm_a.into_raw_fd()).ok()?;
+    let scm_worker = ScmSocket::new(scm_b.into_raw_fd()).ok()?;
+    scm_main.send_listeners(&Listeners::default()).ok()?;
+    let initial = ConfigState::new().produce_initial_state();
+    let job = std::thread::spawn(move || {
+        if let Ok(mut server) = Server::try_new_from_config(worker_side, scm_worker, server_config, initial, false) { server.run(); }
+    });
+    let id = |i: usize| format!("ID-{i:06}-{}", "x".repeat(10_000));
+    for i in 0..commands {
+        if main_side.write_message(&WorkerRequest { id: id(i), content: RequestType::Status(Status {}).into() }).is_err() { return Some(format!("cannot write command #{i}")); }
+    }
+    std::thread::sleep(Duration::from_millis(300));
+    let mut finals: BTreeMap<String, usize> = BTreeMap::new();
+    let mut got = 0usize;
+    let deadline = std::time::Instant::now() + Duration::from_secs(30);
+    while got < commands && std::time::Instant::now() < deadline {
+        match main_side.read_message_blocking_timeout(Some(Duration::from_secs(3))) {
+            Ok(r) => if r.status != ResponseStatus::Processing as i32 { *finals.entry(r.id).or_insert(0) += 1; got += 1; },
+            Err(_) => break,
+        }
+    }
+    let _ = main_side.write_message(&WorkerRequest { id: "STOP".into(), content: RequestType::HardStop(HardStop {}).into() });
+    let _ = main_side.read_message_blocking_timeout(Some(Duration::from_secs(2)));
+    let _ = job.join();
+    let unanswered: Vec<usize> = (0..commands).filter(|i| !finals.contains_key(&id(*i))).collect();
+    let twice = finals.values().filter(|c| **c > 1).count();
+    if !unanswered.is_empty() || twice > 0 {
+        return Some(format!("{} of {commands} commands sent back to back never got a final answer (first missing: #{}), {twice} were answered more than once", unanswered.len(), unanswered.first().copied().unwrap_or(0)));
+    }
+    None
+}
+
 fn main() {
     let thorough = std::env::args().nth(1).map(|s| s == "thorough").unwrap_or(false);
     let p = pool();
@@ -143,6 +182,13 @@ fn main() {
             if k == usize::MAX { break; }
         }
     }
+    if failures.is_empty() {
+        n += 1;
+        let commands = if thorough { 300 } else { 120 };
+        if let Some(obs) = burst(commands) {
+            failures.push((format!("fresh worker over a 4 KiB..16 KiB channel; {commands} Status commands with 10 KB ids written back to back before any answer is read"), obs));
+        }
+    }
     let fjson: Vec<String> = failures.iter().map(|(i, o)| format!("{{\"input\": {i:?}, \"observed\": {o:?}}}")).collect();
-    println!("{{\"bound\": \"every sequence of {depth} commands over a pool of 8 (thorough: also 3 over all 12) configuration commands, each on a fresh in-process worker over its real command channel; no listener activated\", \"states\": {n}, \"pairs\": {n}, \"nontrivial_pairs\": {n}, \"failures\": [{}]}}", fjson.join(", "));
+    println!("{{\"bound\": \"every sequence of {depth} commands over a pool of 8 (thorough: also 3 over all 12) configuration commands, each on a fresh in-process worker over its real command channel; no listener activated; plus one burst of 120 (thorough: 300) commands with 10 KB ids written before any answer is read, over a 16 KiB-ceiling channel\", \"states\": {n}, \"pairs\": {n}, \"nontrivial_pairs\": {n}, \"failures\": [{}]}}", fjson.join(", "));
 }
